@@ -210,8 +210,10 @@ def q(cur, sql):
         return exc_info(e)
 
 
-def sweep(conn, m: Model, acc, rp, last):
-    """Run every metadata reporter and compare with the model. Returns number of reporters run."""
+def sweep(conn, m: Model, acc, rp, last, keep=None):
+    """Run every metadata reporter and compare with the model. Returns number of reporters run.
+    keep: dict living as long as the session (stepwise mode): one dedicated cursor per object that executes nothing but
+    `select * from <object>` - re-executed after every step while the catalog changes through other cursors."""
     cur = conn.cursor()
     from snowflake.connector.cursor import DictCursor
 
@@ -313,7 +315,7 @@ def sweep(conn, m: Model, acc, rp, last):
             check_columns(acc, rp, last, f"describe_{o['kind'].lower()}", fq, o, [
                 {"name": x["name"], "desc": x["type"], "null": x["null?"] == "Y"} for x in r
             ])
-        cur2 = conn.cursor()
+        cur2 = conn.cursor() if keep is None else keep.setdefault(("select*", fq), conn.cursor())
         try:
             cur2.execute(f"select * from {fq}")
             desc = cur2.description
@@ -506,7 +508,8 @@ def sweep_stepwise(hist, acc: core.Acc):
         conn = fs.connect(database="db1", schema="s1")
         m = Model()
         cur = conn.cursor()
-        n += sweep(conn, m, acc, {"history": [], "sweep": "stepwise", "full_history": hist}, "connect")
+        keep = {}
+        n += sweep(conn, m, acc, {"history": [], "sweep": "stepwise", "full_history": hist}, "connect", keep)
         for i, oid in enumerate(hist):
             sql, _en, ap = OPS[oid]
             ap(m)
@@ -514,7 +517,7 @@ def sweep_stepwise(hist, acc: core.Acc):
                 cur.execute(sql)
             except Exception:  # noqa: BLE001
                 pass
-            n += sweep(conn, m, acc, {"history": hist[: i + 1], "sweep": "stepwise", "full_history": hist}, oid)
+            n += sweep(conn, m, acc, {"history": hist[: i + 1], "sweep": "stepwise", "full_history": hist}, oid, keep)
         # ... and once more from a connection made only now (what a session set up at connect must not be stale)
         conn2 = fs.connect(database="db1", schema="s1")
         n += sweep(conn2, m, acc, {"history": hist, "sweep": "stepwise", "full_history": hist, "from": "new connection"}, hist[-1] if hist else "connect")
